@@ -30,6 +30,8 @@ RULES = {
     "N3": rules_extra.rule_N3,
     "N2s": rules_extra.rule_N2s,
     "V1": rules_extra.rule_V1,
+    "H1": rules_extra.rule_H1,
+    "R1": rules_extra.rule_R1,
 }
 
 SELFTESTS = {"T1": rules_types.selftest_T1}
@@ -92,6 +94,36 @@ PROPS = {
                        "reachability from every non-throwing function to every throw site. assert()/DSPLIB_ASSUME are beliefs "
                        "(compiled out in release builds) and never count as guards.",
     },
+    "C06": {
+        "id": "C06",
+        "title": "Streaming processors are invariant to how the stream is framed",
+        "rules": ["H1", "V1", "P2"],
+        "clause": "structural necessary conditions of framing invariance: every array-valued state member a process() method rewrites "
+                  "(delay line, history, overlap tail) receives a value that depends on its previous contents and on the input frame, "
+                  "and the returned frame depends on the input and on that state (a history longer than the frame survives; no call "
+                  "starts from rest); no lazy slice view is read after the array it denotes was written; separately constructed "
+                  "instances share no mutable static storage",
+        "not_decided": "sample-exact equality of the concatenated output for all framings (index arithmetic of the hand-over, block "
+                       "accumulators, ring indices), granularity checks",
+        "explanation": "H1 runs a may-dependence analysis (through locals, pointer aliases and members) over every process() method "
+                       "of a class with array-valued state; an absent dependence is definite because the analysis over-approximates. "
+                       "V1 walks the CFG between the creation of a slice view, writes of the viewed array and later reads of the view. "
+                       "P2 enumerates every static-storage variable of the library.",
+    },
+    "C08": {
+        "id": "C08",
+        "title": "Multirate converters equal the zero-stuff/filter/decimate definition",
+        "rules": ["R1", "H1"],
+        "clause": "the documented rejections and the identity case: FIRDecimator and FIRRateConverter reject (by a live throwing check "
+                  "on every path to a normal return) frames whose length is not a multiple of the decimation factor; resample returns "
+                  "its input unchanged when the reduced ratio is 1; each converter's history is handed over from its previous contents "
+                  "and the input frame and is used by the output",
+        "not_decided": "sample-exact agreement with the textbook chain for all L, M, h (branch schedule, offsets, gains, delay "
+                       "compensation, output length)",
+        "explanation": "R1 is an interprocedural must-pass-through analysis over the CFG (a check inside a callee that lies on the "
+                       "path counts); H1 (restricted to this property: the converters in lib/resample) is the may-dependence analysis "
+                       "of the history hand-over.",
+    },
     "C09": {
         "id": "C09",
         "title": "Concurrent use from several threads is race-free and result-preserving",
@@ -120,6 +152,15 @@ PROPS = {
                        "deterministically from n (P2, K1), so results cannot depend on which other lengths were requested; K2 keeps "
                        "the map free of dangling list iterators on every path (the failure needs a fifth distinct length to show); "
                        "K3 ties the capacity to DSPLIB_FFT_CACHE_SIZE (folded constant) in every analysed configuration.",
+    },
+    "C11": {
+        "id": "C11",
+        "title": "FIR and window designs meet their closed-form specifications",
+        "rules": ["R1"],
+        "clause": "a custom window of the wrong length is rejected: on every path from either windowed fir1 overload to a normal "
+                  "return a live throwing comparison of win.size() with the order is passed (in the design helper that path calls)",
+        "not_decided": "symmetry, DC/Nyquist gain, the Hamming-design masks, the closed forms of all window functions",
+        "explanation": "R1: interprocedural must-pass-through of a guard whose surviving outcome is win.size() == f(n).",
     },
     "C12": {
         "id": "C12",
@@ -192,11 +233,8 @@ NOT_APPLICABLE = {
     "C03": "element-wise values are numerical; the type-promotion table, length-guard dominance and value-semantics clauses are decidable and are claimed when their rules exist",
     "C04": "index-resolution arithmetic against Python is a run-time quantifier; guard, aliasing, copy-agreement and noexcept clauses are decidable and are claimed when their rules exist",
     "C05": "value-range safety of index arithmetic inside kernels and termination are not decidable from shape; guard-completeness clauses are claimed when their rules exist",
-    "C06": "invariance over all framings of a stream quantifies over run-time framings and sample values; the state hand-over arithmetic is not decidable from the shape of the code",
     "C07": "numerical equality with a defining sum for all coefficient vectors and inputs",
-    "C08": "sample-exact agreement with the zero-stuff/filter/decimate chain depends on branch schedules and offsets computed at run time",
     "C10": "recency order of eviction is a run-time history property; purity/key/pairing/capacity clauses are claimed when their rules exist",
-    "C11": "closed-form numerical masks and window formulas for all orders and parameters",
     "C12": "convergence and the e = d - y arithmetic are numerical; lock dominance and a-priori ordering are claimed when their rule exists",
     "C13": "power conservation and peak-versus-axis agreement are numerical/ordering facts of run-time arrays",
     "C14": "analytic-signal and phase-accumulator identities are numerical; the admissible-frequency test clause is claimed when its rule exists",
